@@ -28,21 +28,25 @@ def ERROR_TYPE(error_val):
 
 @dispatcher.register_for('ISBLANK')
 def ISBLANK(value):
+    value = utils.single(value)
     return value is None
 
 
 @dispatcher.register_for('ISERR')
 def ISERR(value):
+    value = utils.single(value)
     return isinstance(value, error.XLError) and value != error.NOT_AVAILABLE
 
 
 @dispatcher.register_for('ISERROR')
 def ISERROR(value):
+    value = utils.single(value)
     return isinstance(value, error.XLError)
 
 
 @dispatcher.register_for('ISEVEN')
 def ISEVEN(number):
+    number = utils.single(number)
     if not isinstance(number, number_types):
         return error.VALUE
     return (int(number) & 1) == 0
@@ -50,6 +54,7 @@ def ISEVEN(number):
 
 @dispatcher.register_for('ISODD')
 def ISODD(number):
+    number = utils.single(number)
     if not isinstance(number, number_types):
         return error.VALUE
     return (int(number) & 1) == 1
@@ -57,21 +62,25 @@ def ISODD(number):
 
 @dispatcher.register_for('ISTEXT')
 def ISTEXT(value):
+    value = utils.single(value)
     return isinstance(value, string_types)
 
 
 @dispatcher.register_for('ISNUMBER')
 def ISNUMBER(value):
+    value = utils.single(value)
     return (not isinstance(value, bool)) and isinstance(value, number_types)
 
 
 @dispatcher.register_for('ISLOGICAL')
 def ISLOGICAL(value):
+    value = utils.single(value)
     return isinstance(value, bool)
 
 
 @dispatcher.register_for('ISNA')
 def ISNA(value):
+    value = utils.single(value)
     return value == error.NOT_AVAILABLE
 
 
@@ -93,6 +102,7 @@ def NA():
 
 @dispatcher.register_for('ISNONTEXT')
 def ISNONTEXT(value):
+    value = utils.single(value)
     return not isinstance(value, string_types)
 
 
